@@ -211,3 +211,37 @@ def index_render(i: int, n: int) -> bool:
         return ok(0 <= i < n and got == 100 + i and p.exists(doc))
     except JSONPointerResolutionError:
         return ok(not (0 <= i < n) and not p.exists(doc))
+
+
+TEXTS = [("/a\\u0062", ["ab"]), ("/x%20y", ["x y"]), ("/a~1b/%7E0", ["~0", "~"]), ("/\\u00e9", ["é"]), ("/%2F", ["/"]), ("/a b", []), ("/ab", []),
+         ("/\\ud83d\\ude00", ["\U0001F600"]), ("/%41/1", ["A"]), ("/a%5Cu0062", ["a\\u0062", "ab"])]
+
+
+def options_history(ti: int, ue1: bool, uri1: bool, v: int, second_uri: bool) -> bool:
+    """One pointer text, parsed first under any decoding options and then with escape decoding off: the second pointer is
+    the RFC 6901 reading of the text (URI-decoded first if asked), whatever was done with the same text before.
+
+    pre: 0 <= ti < len(TEXTS)
+    post: _
+    """
+    text, decoys = pick(TEXTS, ti)
+    try:
+        JSONPointer(text, unicode_escape=ue1, uri_decode=uri1)
+    except JSONPointerError:
+        pass
+    from urllib.parse import unquote
+
+    tokens = O.parse(unquote(text) if second_uri else text)
+    doc: Any = v
+    for t in reversed(tokens):
+        level = {"zz": 0}
+        for d in decoys:
+            level[d] = -1
+        level[t] = doc
+        doc = level
+    p = JSONPointer(text, unicode_escape=False, uri_decode=second_uri)
+    try:
+        got = p.resolve(doc)
+    except JSONPointerError as e:
+        return ok(why(False, "decoding-off pointer does not resolve after an earlier parse of the same text", text, ue1, uri1, str(e)))
+    return ok(why(_is_node(got, v), "resolved to another value", text, ue1, uri1, second_uri, got))
